@@ -132,6 +132,12 @@ def index_manifest(manifests, subject=None, artifact_type=None, annotations=None
 
 
 # ---- step builders -----------------------------------------------------------------------
+def _fin(step):
+    if step.get("model") is None:
+        step["model"] = raw_model(step["impl"], step.get("rng"))
+    return step
+
+
 def _q(params):
     return urllib.parse.urlencode([(k, v) for k, v in params if v is not None])
 
@@ -141,21 +147,38 @@ def _http(method, path, query="", headers=None, body=b"", unknown=False, remote=
                 b64=b64(body), unknown=unknown, remote=remote)
 
 
+def raw_model(impl, rng=None):
+    """the model's view of an HTTP request: method, decoded path, query parameters and the header values
+    net/http parsed, as Server.serve (coq/Server.v) takes them"""
+    q = urllib.parse.parse_qs(impl.get("query") or "", keep_blank_values=True)
+    params = [(k, v[0]) for k, v in q.items()]
+    h = {k.lower(): v for k, v in (impl.get("headers") or {}).items()}
+    acc = accept_list(h.get("accept", []))
+    ct = media_type_base(h["content-type"][0]) if h.get("content-type") else ""
+    body = base64.b64decode(impl.get("b64") or "")
+    clen = -1 if impl.get("unknown") else len(body)
+    cr = h["content-range"][0] if h.get("content-range") else ""
+    st = decode_state(q["state"][0]) if "state" in q else None
+    return sl("raw", sx(impl["method"]), sx(impl["path"]), sl(*[sl(sx(k), sx(v)) for k, v in params]),
+              sl(*[sx(a) for a in acc]), sx(ct), str(clen), sx(cr), s_range(rng),
+              "nil" if st is None else str(st), sx(lat(body)))
+
+
 def s_range(rng):
     return "nil" if rng is None else sl(str(rng[0]), str(rng[1]))
 
 
 def blob_get(repo, d, head=False, rng=None):
     h = {"Range": ["bytes=%d-%d" % rng]} if rng else {}
-    return dict(kind="blobget", repo=repo, arg=d, head=head, rng=rng,
+    return _fin(dict(kind="blobget", repo=repo, arg=d, head=head, rng=rng,
                 impl=_http("HEAD" if head else "GET", "/v2/%s/blobs/%s" % (repo, d), headers=h),
-                model=sl("blobget", sx(repo), sx(d), s_range(rng)))
+                model=None))
 
 
 def blob_delete(repo, d):
-    return dict(kind="blobdel", repo=repo, arg=d,
+    return _fin(dict(kind="blobdel", repo=repo, arg=d,
                 impl=_http("DELETE", "/v2/%s/blobs/%s" % (repo, d)),
-                model=sl("blobdel", sx(repo), sx(d)))
+                model=None))
 
 
 REPO_RE = re.compile(r"^[a-z0-9]+(?:(?:\.|_|__|-+)[a-z0-9]+)*(?:/[a-z0-9]+(?:(?:\.|_|__|-+)[a-z0-9]+)*)*$")
@@ -164,38 +187,37 @@ REPO_RE = re.compile(r"^[a-z0-9]+(?:(?:\.|_|__|-+)[a-z0-9]+)*(?:/[a-z0-9]+(?:(?:
 def upload_post(repo, mount=None, frm=None, digest=None, alg=None, body=b"", unknown=False):
     q = _q([("mount", mount), ("from", frm), ("digest", digest), ("digest-algorithm", alg)])
     from_ok = bool(frm) and REPO_RE.match(frm) is not None
-    return dict(kind="upost", repo=repo, mount=mount or "", frm=frm or "", digest=digest or "", alg=alg or "", body=body,
+    return _fin(dict(kind="upost", repo=repo, mount=mount or "", frm=frm or "", digest=digest or "", alg=alg or "", body=body,
                 impl=_http("POST", "/v2/%s/blobs/uploads/" % repo, q, body=body, unknown=unknown),
-                model=sl("upost", sx(repo), sx(mount or ""), sx(frm or ""), "true" if from_ok else "false",
-                         sx(digest or ""), sx(alg or ""), sx(lat(body))))
+                model=None))
 
 
 def upload_patch(repo, sid, cr, state, body, unknown=False):
     h = {"Content-Range": [cr]} if cr else {}
     st = decode_state(state)
-    return dict(kind="upatch", repo=repo, sid=sid, cr=cr or "", state=state, body=body,
+    return _fin(dict(kind="upatch", repo=repo, sid=sid, cr=cr or "", state=state, body=body,
                 impl=_http("PATCH", "/v2/%s/blobs/uploads/%s" % (repo, sid), _q([("state", state)]), h, body, unknown),
-                model=sl("upatch", sx(repo), sx(sid), sx(cr or ""), "nil" if st is None else str(st), sx(lat(body))))
+                model=None))
 
 
 def upload_put(repo, sid, cr, digest, state, body, unknown=False):
     h = {"Content-Range": [cr]} if cr else {}
     st = decode_state(state)
-    return dict(kind="uput", repo=repo, sid=sid, cr=cr or "", state=state, body=body, digest=digest or "",
+    return _fin(dict(kind="uput", repo=repo, sid=sid, cr=cr or "", state=state, body=body, digest=digest or "",
                 impl=_http("PUT", "/v2/%s/blobs/uploads/%s" % (repo, sid), _q([("state", state), ("digest", digest)]), h, body, unknown),
-                model=sl("uput", sx(repo), sx(sid), sx(cr or ""), sx(digest or ""), "nil" if st is None else str(st), sx(lat(body))))
+                model=None))
 
 
 def upload_get(repo, sid):
-    return dict(kind="uget", repo=repo, sid=sid,
+    return _fin(dict(kind="uget", repo=repo, sid=sid,
                 impl=_http("GET", "/v2/%s/blobs/uploads/%s" % (repo, sid)),
-                model=sl("uget", sx(repo), sx(sid)))
+                model=None))
 
 
 def upload_delete(repo, sid):
-    return dict(kind="udel", repo=repo, sid=sid,
+    return _fin(dict(kind="udel", repo=repo, sid=sid,
                 impl=_http("DELETE", "/v2/%s/blobs/uploads/%s" % (repo, sid)),
-                model=sl("udel", sx(repo), sx(sid)))
+                model=None))
 
 
 def media_type_base(s):
@@ -216,30 +238,30 @@ def manifest_get(repo, ref, accept=(MT_OCI_M, MT_OCI_I, MT_DOCK_M, MT_DOCK_I), h
         h["Accept"] = list(accept)
     if rng:
         h["Range"] = ["bytes=%d-%d" % rng]
-    return dict(kind="mget", repo=repo, arg=ref, head=head, rng=rng, accept=list(accept or []),
+    return _fin(dict(kind="mget", repo=repo, arg=ref, head=head, rng=rng, accept=list(accept or []),
                 impl=_http("HEAD" if head else "GET", "/v2/%s/manifests/%s" % (repo, ref), headers=h),
-                model=sl("mget", sx(repo), sx(ref), sl(*[sx(a) for a in accept_list(accept or [])]), s_range(rng)))
+                model=None))
 
 
 def manifest_put(repo, ref, body, ctype=None, dq=None, unknown=False):
     h = {"Content-Type": [ctype]} if ctype is not None else {}
     ct = media_type_base(ctype) if ctype is not None else ""
     clen = -1 if unknown else len(body)
-    return dict(kind="mput", repo=repo, arg=ref, body=body, ctype=ct, dq=dq or "", unknown=unknown,
+    return _fin(dict(kind="mput", repo=repo, arg=ref, body=body, ctype=ct, dq=dq or "", unknown=unknown,
                 impl=_http("PUT", "/v2/%s/manifests/%s" % (repo, ref), _q([("digest", dq)]), h, body, unknown),
-                model=sl("mput", sx(repo), sx(ref), sx(ct), str(clen), sx(dq or ""), sx(lat(body))))
+                model=None))
 
 
 def manifest_delete(repo, ref):
-    return dict(kind="mdel", repo=repo, arg=ref,
+    return _fin(dict(kind="mdel", repo=repo, arg=ref,
                 impl=_http("DELETE", "/v2/%s/manifests/%s" % (repo, ref)),
-                model=sl("mdel", sx(repo), sx(ref)))
+                model=None))
 
 
 def tag_list(repo, n=None, last=None, head=False):
-    return dict(kind="tags", repo=repo, n=n, last=last, head=head,
+    return _fin(dict(kind="tags", repo=repo, n=n, last=last, head=head,
                 impl=_http("HEAD" if head else "GET", "/v2/%s/tags/list" % repo, _q([("n", n), ("last", last)])),
-                model=sl("tags", sx(repo), sx(n or ""), sx(last or "")))
+                model=None))
 
 
 def tag_walk(repo, n):
@@ -250,9 +272,9 @@ def tag_walk(repo, n):
 
 
 def referrers(repo, subject, flt=None):
-    return dict(kind="refs", repo=repo, arg=subject, filter=flt or "",
+    return _fin(dict(kind="refs", repo=repo, arg=subject, filter=flt or "",
                 impl=_http("GET", "/v2/%s/referrers/%s" % (repo, subject), _q([("artifactType", flt)])),
-                model=sl("refs", sx(repo), sx(subject), sx(flt or "")))
+                model=None))
 
 
 def split(outer, at, mids):
